@@ -143,3 +143,28 @@ Lemma reset_example :
   outs = [Wrote true [0; 1] true; Refused; Wrote true [0; 2] true] /\
   peer_read N toy_inflate 0 outs = [Some ([1], true); Some ([2], true)].
 Proof. vm_compute. split; reflexivity. Qed.
+
+(* ---- the write queue: a failure's close frame reaches the wire, after everything that was queued before it ---- *)
+Lemma sq_write_spec p : sq_write (pst_code p) = match p with CLOSED => false | _ => true end.
+Proof. destruct p; reflexivity. Qed.
+
+Lemma drain_not_closed p : p <> CLOSED -> forall q wire, drain (length q) p (mkWq q wire) = mkWq [] (wire ++ q).
+Proof.
+  intros Hp. induction q as [|e r IH]; intros wire; cbn [length drain].
+  - now rewrite app_nil_r.
+  - unfold drain_one. cbn [wq_q wq_wire]. rewrite sq_write_spec.
+    destruct p; try congruence; rewrite IH, <- app_assoc; reflexivity.
+Qed.
+
+Lemma close_frame_reaches_wire w close_frame :
+  fail_and_drain w close_frame = mkWq [] (wq_wire w ++ wq_q w ++ [close_frame]).
+Proof.
+  unfold fail_and_drain, send_data. cbn [orb]. destruct w as [q wire]. cbn [wq_q wq_wire].
+  destruct q as [|e r]; cbn [nonemptyq].
+  - cbn. reflexivity.
+  - rewrite drain_not_closed by discriminate. reflexivity.
+Qed.
+
+(* whereas once the connection is CLOSED (dropped) nothing that is still queued is written *)
+Lemma drain_closed : forall q wire, drain (length q) CLOSED (mkWq q wire) = mkWq [] wire.
+Proof. induction q as [|e r IH]; intros wire; cbn [length drain]; [reflexivity|]. unfold drain_one. cbn. apply IH. Qed.
